@@ -20,7 +20,7 @@ import operator
 from pprint import pprint
 
 from .core import Path, T, S, Spec, glom, UnregisteredTarget, GlomError, PathAccessError, UP
-from .core import TType, register_op, TargetRegistry, bbrepr, PathAssignError, arg_val, _assign_op, Val
+from .core import TType, register_op, TargetRegistry, bbrepr, PathAssignError, arg_val, _assign_op, Val, _t_child
 
 
 try:
@@ -65,6 +65,19 @@ def _apply_for_each(func, path, val):
             func(inner)
     else:
         func(val)
+
+
+def _s_first_item(path):
+    """S.a means S['a'] (see core._s_first_magic): spell the first step of an
+    S-rooted destination that way, so that it names a scope variable and not
+    an attribute of the scope object"""
+    ops = path.path_t.__ops__
+    if ops[0] is S and len(ops) > 1 and ops[1] in ('.', 'P'):
+        t = S[ops[2]]
+        for i in range(3, len(ops), 2):
+            t = _t_child(t, ops[i], ops[i + 1])
+        return Path(t)
+    return path
 
 
 class Assign:
@@ -140,6 +153,7 @@ class Assign:
             path = Path(path)
         elif not isinstance(path, Path):
             raise TypeError('path argument must be a .-delimited string, Path, T, or S')
+        path = _s_first_item(path)
 
         try:
             self.op, self.arg = path.items()[-1]
@@ -277,6 +291,7 @@ class Delete:
             path = Path(path)
         elif not isinstance(path, Path):
             raise TypeError('path argument must be a .-delimited string, Path, T, or S')
+        path = _s_first_item(path)
 
         try:
             self.op, self.arg = path.items()[-1]
